@@ -27,7 +27,7 @@ def run(rep, work, rng, tier):
     common.proof_part(rep, 'C03')
     cases = [('kf_' + k['signature'], k['replay']) for k in rep.kf]
     cases += residue_cases(rng)
-    n = 200 if tier == 'quick' else 5000
+    n = 200 if tier == 'quick' else 20000
     kinds = {}
     for i in range(n):
         if rng.random() < 0.7:
